@@ -982,7 +982,8 @@ class R:
     def __hash__(self):
         if self.concrete:
             return hash(self.n)
-        raise TypeError('unhashable symbolic real')
+        # symbolic values used as dictionary / cache keys: equal terms hash alike, and the lookup's `==` then goes to the solver
+        return hash(z3.simplify(tz(self.n) / tz(self.d)).sexpr())
 
     def __bool__(self):
         r = self != 0
